@@ -75,14 +75,15 @@ G = {
                    N("Dump"), N("Foreach"), N("If"), N("Let"), N("MultiClass")),
     "Include": S(T("Include"), N("String")),
     "Class": S(T("Class"), N("Identifier"), O(N("TemplateArgList")), N("RecordBody")),
-    "Def": S(T("Def"), O(N("NameValue")), N("RecordBody")),
+    # `{`, `:` and `;` right after def/defm always start the body / parent list (anonymous record)
+    "Def": S(T("Def"), O(NF(("LBrace",), N("NameValue"))), N("RecordBody")),
     "Let": S(T("Let"), N("LetList"), T("In"), BLOCK),
     "LetList": sep_list(N("LetItem")),
     "LetItem": S(N("Identifier"), O(S(T("Less"), N("RangeList"), T("Greater"))), T("Equal"), N("Value")),
     "MultiClass": S(T("MultiClass"), N("Identifier"), O(N("TemplateArgList")), N("ParentClassList"),
                     T("LBrace"), P(N("MultiClassStatement")), T("RBrace")),
     "MultiClassStatement": A(N("Assert"), N("Def"), N("Defm"), N("Dump"), N("Foreach"), N("Let"), N("If")),
-    "Defm": S(T("Defm"), O(N("NameValue")), N("ParentClassList"), T("Semi")),
+    "Defm": S(T("Defm"), O(NF(("LBrace",), N("NameValue"))), N("ParentClassList"), T("Semi")),
     "Defset": S(T("Defset"), N("Type"), N("Identifier"), T("Equal"), T("LBrace"), R(N("Statement")), T("RBrace")),
     "Defvar": S(T("Defvar"), N("Identifier"), T("Equal"), N("Value"), T("Semi")),
     "Dump": S(T("Dump"), N("Value"), T("Semi")),
@@ -109,9 +110,9 @@ G = {
     "FieldDef": S(O(T("Field")), N("Type"), N("Identifier"), O(S(T("Equal"), N("Value"))), T("Semi")),
     "FieldLet": S(T("Let"), N("Identifier"), O(S(T("LBrace"), N("RangeList"), T("RBrace"))), T("Equal"),
                   N("Value"), T("Semi")),
-    "Type": A(T("Bit"), T("Int"), T("String"), T("Dag"), T("Code"),
-              S(T("Bits"), T("Less"), N("Integer"), T("Greater")),
-              S(T("List"), T("Less"), N("Type"), T("Greater")), N("Identifier")),
+    "Type": A(T("Bit"), T("Int"), T("String"), T("Dag"), T("Code"), N("BitsType"), N("ListType"), N("Identifier")),
+    "BitsType": S(T("Bits"), T("Less"), N("Integer"), T("Greater")),
+    "ListType": S(T("List"), T("Less"), N("Type"), T("Greater")),
     "Value": S(N("InnerValue"), R(S(T("Paste"), N("InnerValue")))),
     "InnerValue": S(N("SimpleValue"), R(N("ValueSuffix"))),
     # name mode (object names of def/defm): no `{` suffix, it starts the body
